@@ -426,7 +426,7 @@ class Alias:
         if k == "call" and head[1] == "np.positive":
             return set()
         if k in ("const", "str", "fstr", "cmp", "and", "or", "not", "lambda", "index", "exc", "slice",
-                 "pow", "binop", "classof", "unbound", "fmt", "concat", "repeat", "rec"):
+                 "pow", "binop", "classof", "unbound", "fmt", "concat", "repeat", "rec", "carried", "yield", "yieldfrom"):
             return set()
         if k == "attr":
             base = self.roots(ctx, args[0])
@@ -606,7 +606,7 @@ def strip_stores(ctx, t):
         elif h and h[0] == "phi":
             for y in ctx.args_of(x):
                 rec(y, depth + 1)
-        elif h and h[0] == "rec":
+        elif h and h[0] in ("rec", "carried"):
             return
         else:
             if not any(ctx.eq(x, o) for o in out):
